@@ -45,6 +45,7 @@ type Op struct {
 	Pad   int       `json:"pad,omitempty"`  // key is Key followed by Pad filler bytes
 	VLen  int       `json:"vlen,omitempty"` // value length
 	VTag  uint32    `json:"vtag,omitempty"` // value content tag (unique per put)
+	NilV  bool      `json:"nilv,omitempty"` // put: pass a nil slice as the (empty) value
 	Dst   []string  `json:"dst,omitempty"`
 	N     uint64    `json:"n,omitempty"`
 	Calls []CurCall `json:"calls,omitempty"`
